@@ -39,12 +39,14 @@ def c16():
           bounds="all offsets 1..MI_SEGMENT_SIZE inside a segment object (base = CBMC object address)", cost=5),
         O("C16.page_of", "c16_arith.c", "h_page_of", funcs=["_mi_segment_page_of", "mi_slice_first", "mi_slice_to_page"],
           bounds="all span positions/lengths in a 512-slice segment, all interior byte offsets", cost=60, timeout=900),
-        O("C16.helpers", "c16_arith.c", "h_helpers", funcs=["_mi_align_up", "_mi_align_down", "_mi_divide_up", "_mi_is_power_of_two", "_mi_wsize_from_size", "_mi_clamp"],
-          bounds="64-bit symbolic value and alignment", cost=60, timeout=900, tier="thorough"),
+        O("C16.helpers.pow2", "c16_arith.c", "h_helpers", defines=["HELPERS_MODE=1"], funcs=["_mi_align_up", "_mi_align_down", "_mi_divide_up", "_mi_is_power_of_two", "_mi_wsize_from_size", "_mi_clamp"],
+          bounds="64-bit symbolic value, any power-of-two alignment", cost=30, timeout=900),
+        O("C16.helpers.any", "c16_arith.c", "h_helpers", defines=["HELPERS_MODE=2", "HELPERS_BITS=12"], funcs=["_mi_align_up", "_mi_align_down", "_mi_divide_up", "_mi_is_power_of_two", "_mi_wsize_from_size", "_mi_clamp"],
+          bounds="any alignment and value below 2^12 (symbolic divide/multiply paths)", cost=60, timeout=900, tier="thorough"),
         O("C16.bits", "c16_arith.c", "h_bits", funcs=["mi_clz", "mi_ctz", "mi_bsr", "mi_popcount", "_mi_popcount_generic"],
           bounds="all 64-bit values", unwind=66, cost=20),
-        O("C16.unalign.sym", "c16_arith.c", "h_unalign", funcs=["_mi_page_ptr_unalign"],
-          bounds="symbolic block size (multiple of 8, <= 16MiB), page start, block offset < 32MiB, interior offset", cost=120, timeout=900, tier="thorough"),
+        O("C16.unalign.sym", "c16_arith.c", "h_unalign", defines=["SYM_BS_MAX=512", "SYM_BOFF_MAX=65535"], funcs=["_mi_page_ptr_unalign"],
+          bounds="symbolic block size (multiple of 8, <= 512), any page start, block offset < 64KiB, any interior offset", cost=120, timeout=900, tier="thorough"),
         O("C16.unalign.pow2", "c16_arith.c", "h_unalign_pow2", funcs=["_mi_page_ptr_unalign", "mi_ctz"],
           bounds="block size 2^k for k=3..40, block index 0/1, all interior offsets", cost=20, std_checks=False),
     ]
@@ -271,7 +273,7 @@ def c14():
         obs.append(rg_ob("C14.find_claim_across.big.s%d" % s0, "h_find_claim_across", defines=["START=%d" % s0, "CMIN=65", "CMAX=128", "EXPECT_CROSS"], std_checks=False,
                          replace={"_mi_bitmap_try_find_claim_field": "stub_unreachable_find_claim_field"},
                          funcs=fa, cost=200, bounds="2 fields fully symbolic, start field %d, count 65..128 (multi-field claims)" % s0))
-    obs.append(rg_ob("C14.find_claim_across.nf3", "h_find_claim_across", nf=3, defines=["CMIN=65", "CMAX=192", "EXPECT_CROSS"], std_checks=False, funcs=fa, cost=600, tier="thorough", timeout=3600,
+    obs.append(rg_ob("C14.find_claim_across.nf3", "h_find_claim_across", nf=3, defines=["CMIN=65", "CMAX=192", "EXPECT_CROSS"], std_checks=False, funcs=fa, cost=600, tier="extended", timeout=3600,
                      replace={"_mi_bitmap_try_find_claim_field": "stub_unreachable_find_claim_field"}, bounds="3 fields fully symbolic, count 65..192"))
     return obs
 
@@ -496,6 +498,7 @@ def c01():
     obs += page_obs("C01", [E_FREE, E_COLLECT, E_EXTEND], sizes=((16, 6), (80, 4)), flavours=("secure",), tier="extended")
     obs += queue_obs("C01")
     obs += span_obs("C01") + page_free_full_obs("C01")
+    obs += segment_alloc_full_obs("C01", flavours=("release",)) + segment_alloc_full_obs("C01", flavours=("secure",), tier="thorough")
     for b in (1, 2, 13, 33, 48):
         obs.append(O("C01.page_start.bin%02d" % b, "c16_arith.c", "h_page_start", defines=["BIN=%d" % b], funcs=["_mi_segment_page_start_from_slice"], cost=30,
                      bounds="real bin %d: the page area (start, size) lies exactly inside its span for every slice index" % b))
@@ -598,7 +601,7 @@ def c20():
               funcs=VSN_FUNCS, bounds="every 3-byte format without %s, arguments <= 65535, buffer sizes 0..12"),
         lo_ob("C20.vsnprintf.str3", "h_vsnprintf", defines=["FMTLEN=3", "WITH_STRINGS"], unwind=5, unwindset=VSN_LOOPS(13, 22, 12), cost=200,
               funcs=VSN_FUNCS, bounds="every 3-byte format, arguments are valid strings of <= 4 characters, buffer sizes 0..12"),
-        lo_ob("C20.vsnprintf.num4", "h_vsnprintf", defines=["FMTLEN=4", "POSTN=1100"], unwind=6, unwindset=VSN_LOOPS(13, 22, 12), cost=600, tier="thorough", timeout=3600,
+        lo_ob("C20.vsnprintf.num4", "h_vsnprintf", defines=["FMTLEN=4", "POSTN=1100"], unwind=6, unwindset=VSN_LOOPS(13, 22, 12), cost=600, tier="extended", timeout=3600,
               funcs=VSN_FUNCS, bounds="every 4-byte format without %s, arbitrary 64-bit arguments, buffer sizes 0..12"),
         lo_ob("C20.option_setget", "h_option_setget", unwind=4, unwindset=["h_option_setget.0:50", "h_option_setget.1:50"], replace=MSG_REPL,
               funcs=["mi_option_set", "mi_option_get", "mi_option_get_clamp", "mi_option_is_enabled"], cost=20, bounds="every option index incl. out of range, every value"),
@@ -611,7 +614,7 @@ def c20():
         obs.append(lo_ob("C20.option_env.%s" % name[10:], "h_option_env", defines=["OPT=%s" % name, "ENVLEN=6"], unwind=8, unwindset=ENV_LOOPS, replace=MSG_REPL, cost=200,
                          funcs=["mi_option_init", "mi_option_get", "mi_option_set", "mi_option_get_size", "_mi_getenv", "_mi_strlcpy", "_mi_strlcat", "_mi_strnlen", "_mi_toupper", "mi_mul_overflow"],
                          bounds="environment strings of up to 6 arbitrary characters for option %s" % name[10:]))
-    obs.append(lo_ob("C20.option_env.arena_reserve.L", "h_option_env", defines=["OPT=mi_option_arena_reserve", "ENVLEN=22"], unwind=24, unwindset=ENV_LOOPS, replace=MSG_REPL, cost=600, tier="thorough", timeout=3600,
+    obs.append(lo_ob("C20.option_env.arena_reserve.L", "h_option_env", defines=["OPT=mi_option_arena_reserve", "ENVLEN=22"], unwind=24, unwindset=ENV_LOOPS, replace=MSG_REPL, cost=600, tier="extended", timeout=3600,
                      funcs=["mi_option_init", "mi_option_get_size"], bounds="environment strings of up to 22 characters (decimal overflow range) for arena_reserve"))
     return obs
 
@@ -665,6 +668,8 @@ def c03():
         obs.append(O("C03.page_start.bin%02d" % b, "c16_arith.c", "h_page_start", defines=["BIN=%d" % b], funcs=["_mi_segment_page_start_from_slice"], cost=30,
                      bounds="real bin %d: page start is block-size aligned (natural alignment guarantee)" % b))
     obs += queue_obs("C03", which=("fullmoves",))
+    obs += huge_geometry_obs("C03")
+    obs += [o for o in segment_alloc_full_obs("C03", flavours=("release",)) if ".al." in o["id"] and "arena_fail" not in o["id"]]
     return obs
 
 
@@ -902,6 +907,28 @@ def seg_shape_obs(prefix, which):
     return obs
 
 
+def huge_geometry_obs(prefix, flavours=("release", "secure")):
+    return [sg_ob("%s.huge_geometry.%s" % (prefix, fl), "h_huge_geometry", flavour=fl, unwind=8, unwindset=[], std_checks=False, cost=30,
+                  funcs=["mi_segment_alloc", "mi_segment_os_alloc", "mi_segment_calculate_slices", "_mi_align_up", "_mi_ptr_segment"],
+                  bounds="any size 1..2^40, any alignment 2^k with 2^25 <= 2^k <= 2^40, any base address the arena contract allows (< 2^47), %s build" % fl) for fl in flavours]
+
+
+def segment_alloc_full_obs(prefix, flavours=("release", "secure"), tier="quick"):
+    cases = [("normal", 0, 0), ("huge1", 1, 0), ("huge100k", 100 * 1024, 0), ("huge40m", 40 * 1024 * 1024, 0), ("huge1.al", 1, 1), ("huge20m.al", 20 * 1024 * 1024, 1)]
+    obs = []
+    for fl in flavours:
+        for nm, req, al in cases:
+            for zm, af, cf in ((1, 0, 0), (0, 0, 0), (1, 1, 0), (1, 0, 1)):
+                if (af and nm not in ("normal", "huge1.al")) or (cf and nm != "normal"): continue
+                obs.append(sg_ob("%s.segment_alloc_full.%s.%s.%s" % (prefix, nm, "arena_fail" if af else "commit_fail" if cf else "fresh" if zm else "recycled", fl), "h_segment_alloc_full", flavour=fl, tier=tier,
+                                 defines=["REQ=%d" % req, "ALIGN=%s" % ("MI_SEGMENT_SIZE" if al else "0"), "ZEROMEM=%d" % zm, "ARENA_FAIL=%d" % af, "COMMIT_FAIL_AT=%d" % cf], unwind=40, std_checks=False, cost=60,
+                                 unwindset=SEG_UNWINDSET + ["stub_memzero_seg.0:520", "mi_segment_span_allocate.0:260"], cbmc_flags=["--max-field-sensitivity-array-size", "520"],
+                                 replace={"_mi_ptr_segment": "stub_ptr_segment2", "_mi_memzero": "stub_memzero_seg"},
+                                 funcs=["mi_segment_alloc", "mi_segment_os_alloc", "mi_segment_calculate_slices", "mi_segment_span_allocate", "mi_segment_span_free", "mi_segment_huge_page_alloc", "_mi_segment_page_of", "_mi_segment_page_start"],
+                                 bounds="request %d bytes (0 = normal segment), alignment %s, %s memory, %s build; options, commit state and OS answers symbolic" % (req, "one segment" if al else "none", "zeroed" if zm else "arbitrary (recycled)", fl)))
+    return obs
+
+
 def segment_alloc_commit_ob(prefix):
     return sg_ob(prefix + ".segment_alloc_commit", "h_segment_alloc_commit", replace={"mi_segment_os_alloc": "stub_segment_os_alloc"}, unwind=8, unwindset=[], std_checks=False, cost=10,
                  funcs=["mi_segment_alloc"], bounds="any required size (0 = normal segment, > 0 = huge), any huge alignment, options symbolic")
@@ -912,7 +939,8 @@ def c13():
         arena_free_ob("C13"), arena_alloc_ob("C13"),
         os_ob("C13.page_align", "h_page_align", funcs=["mi_os_page_align_areax", "_mi_align_up", "_mi_align_down"], cost=20, bounds="any address and size"),
         os_ob("C13.os_purge", "h_purge", funcs=["_mi_os_purge_ex", "mi_os_decommit_ex", "_mi_os_reset", "_mi_os_commit_ex"], cost=20, bounds="any range, decommit or reset mode, any delay")] + arena_expiry_ob("C13")[:2] + [
-        o for o in page_free_full_obs("C13") if o["id"].endswith(".owned")] + span_obs("C13", which=("span_alloc",))[1:3]
+        o for o in page_free_full_obs("C13") if o["id"].endswith(".owned")] + span_obs("C13", which=("span_alloc",))[1:3] + [
+        o for o in segment_alloc_full_obs("C13", flavours=("release",)) if ".normal.fresh" in o["id"] or ".normal.recycled" in o["id"] or ".huge100k.fresh" in o["id"]]
 
 
 PROPS["C13"] = dict(
@@ -925,7 +953,7 @@ PROPS["C13"] = dict(
 
 
 def c07():
-    return os_roundtrip_obs("C07") + span_obs("C07", which=("span_alloc",)) + seg_shape_obs("C07", ["seg_commit"]) + [o for o in td_obs("C07") if "td_zalloc.c0" in o["id"]] + [arena_alloc_ob("C07"), arena_free_ob("C07"),
+    return os_roundtrip_obs("C07") + span_obs("C07", which=("span_alloc",)) + [o for o in segment_alloc_full_obs("C07", flavours=("release",)) if "_fail" in o["id"]] + seg_shape_obs("C07", ["seg_commit"]) + [o for o in td_obs("C07") if "td_zalloc.c0" in o["id"]] + [arena_alloc_ob("C07"), arena_free_ob("C07"),
         os_ob("C07.os_purge_commit", "h_purge", funcs=["_mi_os_commit_ex", "_mi_os_purge_ex"], cost=20, bounds="commit/purge with refusing OS")]
 
 
